@@ -311,6 +311,12 @@ impl<'a> CaseEnv<'a> {
             self.stats.borrow_mut().nontrivial.insert(hash_str(canonical));
         }
     }
+    /// Counts additional evaluations made inside one generated case (e.g. enumerated crash points).
+    pub fn add_evaluations(&mut self, n: u64) {
+        if self.counting {
+            self.stats.borrow_mut().evaluations += n;
+        }
+    }
     pub fn declined(&mut self) {
         if self.counting {
             self.stats.borrow_mut().declined += 1;
